@@ -2,7 +2,7 @@
 (* Telegram callbacks of the telegram queue (xknx/core/telegram_queue.py: Callback.is_within_filter,
    _run_telegram_received_cbs, process_telegram_incoming / _outgoing).  A callback record is
    [all: no addresses given, den: set of destination addresses its filters / address list denote, out: asked for
-   outgoing telegrams, raises: the callable raises].  Addresses are small integers; 0 = an individual address. *)
+   outgoing telegrams, raises: the callable raises, fn: the callable (one callable may be registered several times)].  Addresses are small integers; 0 = an individual address. *)
 EXTENDS Integers, Sequences
 VARIABLES cbs,                 \* registered callbacks in registration order
           called,              \* callbacks invoked for the last processed telegram, in order
@@ -13,6 +13,10 @@ Register(c) == cbs' = Append(cbs, c) /\ UNCHANGED <<called, devices>>
 Unregister(k) == /\ k \in 1..Len(cbs)
                  /\ cbs' = [j \in 1..Len(cbs) - 1 |-> IF j < k THEN cbs[j] ELSE cbs[j + 1]]
                  /\ UNCHANGED <<called, devices>>
+\* the lists of a registration's handle are edited in place: that registration denotes more addresses, no other one changes
+Edit(k, S) == /\ k \in 1..Len(cbs)
+              /\ cbs' = [cbs EXCEPT ![k].den = @ \cup S]
+              /\ UNCHANGED <<called, devices>>
 Matches(c, dst, outgoing) == /\ (outgoing => c.out)
                              /\ (c.all \/ (dst # 0 /\ dst \in c.den))
 Idx(dst, outgoing) == {k \in 1..Len(cbs) : Matches(cbs[k], dst, outgoing)}
